@@ -148,6 +148,23 @@ PROPS = {
         ],
         "assumptions": ["The full statement is false for the code as it is (known finding F13): C13_both_paths_F13 is the machine-checked witness, C13_one_path_partial the statement under the hypothesis NoStale that F13 violates."],
     },
+    "C06": {
+        "modules": ["Replicon.Props.C06"],
+        "theorems": [
+            "Replicon.C06.C06_never_panics",
+            "Replicon.C06.C06_allocation_bounded",
+            "Replicon.C06.C06_work_bounded",
+            "Replicon.C06.C06_unauthorized_acks_dropped",
+            "Replicon.C06.C06_junk_acks_harmless",
+            "Replicon.C06.C06_other_clients_untouched",
+        ],
+        "profiles": [{"name": "sys_junk", "shards": {"thorough": 8}}],
+        "rule": SYS_RULE + LOCK + "Profile sys_junk (C06): a live server with an attacker (client 0, authorized or not: AuthMethod::None / Custom / ProtocolCheck) and a well-behaved client 1. Byte strings are injected with RepliconServer::insert_received on every client channel (acknowledgements, ProtocolHash trigger, ordered u32 event, mapped event with an Entity, trigger with targets): exhaustively all strings of length 0..1 (quick) / 0..2 (thorough) on every channel from an authorized and from an unauthorized attacker, plus structure-aware mutations of well-formed messages (truncation, extension, bit flips, extreme varints, oversized length prefixes, overflowing generations). Every server frame that processes injected bytes runs under catch_unwind with a size-recording global allocator. Oracles on the implementation: no panic; the process does not die (a trace that ends inside a case is reported with the case as replay); the largest single allocation of such a frame is <= 64 KiB + 64 x injected bytes; after the final flush client 1 has converged (the C01/C02/C03 oracles, re-labelled C06). Model vs implementation: the events server-side logic observes (payload, referenced entities, sender) are compared with Recv.receive on the same bytes; acknowledgements go through the server model's ack_mutate_message.",
+        "trusted_extra": [
+            "modelled, not verified: the Rust allocator and Vec growth, Bevy's event/observer machinery after an event is accepted, user-supplied deserializers of other event types, the transport framing (C12); a ProtocolHash message that decodes but is not the real one ends the session and switches the lock-step models off for the rest of that case",
+        ],
+        "assumptions": ["The theorems cover the decoders of the harness's channel kinds (fixint u16 acks, postcard varints, replicon's entity codec, Bevy's Entity::try_from_bits, trigger target lists); other event types use the same primitives plus serde-derived code that is not modelled."],
+    },
     "C07": {
         "modules": ["Replicon.Props.C07"],
         "theorems": [
@@ -426,6 +443,12 @@ MANIFEST_TEXT = {
         "design_ref": "DESIGN.md §7 C13",
         "note": "Known finding F13 is reported, tagged by the trace checker.",
         "technique": "Lean 4 proof (theorems about executable models of the event buffers, queues and run conditions) + lock-step model/implementation correspondence on real traces + property oracle on the implementation",
+    },
+    "C06": {
+        "text": "Lean theorems about the receive-path model: on every client channel kind, for every byte string, from an authorized client or not, the receive path returns an effect and never reaches a panic site (C06_never_panics); the capacity requested before validation is at most the message length (C06_allocation_bounded); accepted triggers carry fewer targets than bytes, all valid entity ids, and an ack message yields at most one 16-bit index per two bytes (C06_work_bounded); acks from unauthorized clients are dropped, acks naming nothing in flight leave the sender's state unchanged, and a client's message touches only its own state (C06_unauthorized_acks_dropped, C06_junk_acks_harmless, C06_other_clients_untouched).",
+        "design_ref": "DESIGN.md §7 C06",
+        "note": "Defects F5, F10a, F10b found with this machinery were repaired by fix: commits; reverting any of them makes this check report a violation with a replay.",
+        "technique": "Lean 4 proof (totality, panic-freedom and proportionality of an executable model of the decoders) + differential comparison of decoders on injected bytes against the live server + panic/abort/allocation oracles on the implementation",
     },
     "C07": {
         "text": 'Lean theorems about the server model: a replication run produces output only for authorized clients (C07_unauthorized_silent); a freshly authorized client is sent every non-hidden replicated entity whole (C07_full_state_on_authorization, C07_authorize_fresh); check_protocol authorizes exactly on equal hashes and otherwise notifies and requests a disconnect (C07_protocol_check). Events for unauthorized clients are part of the event model (C04/C05).',
